@@ -71,6 +71,16 @@ Definition helper_model (c : list tclass * list nat * list (str * value) * cfgda
                 out.append(dict(classes=[up, down], vals={'x': 1}, real=[1], by_class=by_class, drop_mock=False, single=single))
                 out.append(dict(classes=[up, down, deep], vals={'x': 1, 'y': 3}, real=[2], by_class=by_class, drop_mock=False,
                                 single=single))
+        # a class listed among the tested tasks and mocked as well: it is a mock (returns the supplied value, never runs)
+        ex = dict(K(0, 'Expensive', params=[P('x')]), name='expensive')
+        us = dict(K(1, 'Uses', meta_inputs=[{'cls': 0}]), name='uses')
+        for by_class in (True, False):
+            out.append(dict(classes=[ex, us], vals={'x': 1}, real=[0, 1], by_class=by_class, drop_mock=False, single=False, also_mock=[0]))
+        # two tested tasks that read one config key with different defaults, the key not given: each uses its own default
+        sa = dict(K(0, 'Sample', params=[P('size', default=[3])]), name='sample')
+        sc = dict(K(1, 'Score', params=[P('size', default=[10])], meta_inputs=[{'cls': 0}]), name='score')
+        for real in ([0, 1], [1, 0]):
+            out.append(dict(classes=[sa, sc], vals={}, real=real, by_class=False, drop_mock=False, single=False))
         # an optional input (with a default) of one tested class, listed before a tested class whose required input is
         # neither tested nor mocked: the missing input is reported at construction, in both orders
         upm = dict(K(0, 'Upstream'), name='upstream')
@@ -120,6 +130,8 @@ Definition helper_model (c : list tclass * list nat * list (str * value) * cfgda
                     mocks.append([cid, slug[cid], v])
                 if case['drop_mock'] and mocks:
                     mocks = mocks[1:]
+                for cid in case.get('also_mock', []):      # a class that is listed among the tested tasks AND mocked: the mock wins
+                    mocks.append([cid, slug[cid], real_values.get(slug[cid], {'mock': cid})])
                 pl.RUNLOG.clear()
                 out = {}
 
@@ -221,7 +233,7 @@ Definition helper_model (c : list tclass * list nat * list (str * value) * cfgda
                             f'neither tested nor mocked, yet the helper was constructed (values: {str(obs.get("values"))[:200]})')
         if obs.get('real_error') or 'values' not in obs or case['drop_mock']:
             return None
-        asked = sorted(pl.slug_of(c) for c in case['classes'] if c['id'] in case['real'])
+        asked = sorted(pl.slug_of(c) for c in case['classes'] if c['id'] in case['real'] and c['id'] not in case.get('also_mock', []))
         for tag, part in (('', obs), (' (used again)', obs.get('again', {}))):
             if 'kinds' in part:
                 got = sorted(sl for _, kind, sl in part['kinds'] if kind != 'MockTask')
